@@ -125,6 +125,37 @@ func storeOps(e *Engine, fn *ssa.Function, prefixPkg string) []storeOp {
 			for _, g := range gs {
 				add(g, !bare)
 			}
+			if len(gs) == 0 {
+				// the key (prefix) is a parameter of a shared helper such as iteratePrefix(ctx, prefix, cb): the operation belongs
+				// to each caller, with the prefix found in the argument of that call (two levels)
+				var lift func(f *ssa.Function, v ssa.Value, depth int)
+				lift = func(f *ssa.Function, v ssa.Value, depth int) {
+					if depth > 2 {
+						return
+					}
+					for x := range backSlice(v, SliceOpts{ThroughCallArgs: alwaysThrough}).Vals {
+						p, isP := x.(*ssa.Parameter)
+						if !isP || p.Parent() != f {
+							continue
+						}
+						k := paramIndex(p)
+						for _, cs := range e.repoCallSites(func(c ssa.CallInstruction) bool { return c.Common().StaticCallee() == f }) {
+							if k < 0 || k >= len(cs.Call.Common().Args) {
+								continue
+							}
+							arg := cs.Call.Common().Args[k]
+							g2, bare2 := globalsIn(arg)
+							for _, g := range g2 {
+								out = append(out, storeOp{cs.Fn, cs.Call, kind, g, !bare2 || kind == "iterate"})
+							}
+							if len(g2) == 0 {
+								lift(cs.Fn, arg, depth+1)
+							}
+						}
+					}
+				}
+				lift(fn, ka, 1)
+			}
 		}
 		// prefix stores: prefix.NewStore(store, G) — every operation on it is keyed under G
 		gs, _ := globalsIn(store)
@@ -270,8 +301,78 @@ func checkC18(e *Engine, r *Report) {
 		ini := e.Fn(EV+"/x/evm", "InitGenesis")
 		reach := staticReach(e, exp)
 		// polarity of the two iterating helpers: which callback result stops the loop
-		stopValue := func(helper *ssa.Function) (bool, bool) {
+		var stopValue func(helper *ssa.Function) (bool, bool)
+		stopValue = func(helper *ssa.Function) (bool, bool) {
+			if len(helper.Params) == 0 {
+				return false, false
+			}
 			cb := helper.Params[len(helper.Params)-1]
+			// composed helper: the loop lives in another helper h2, which receives an adapter literal `func(k, v) bool { return [!]cb(…) }`
+			for _, hc := range callsIn(helper, false, func(c ssa.CallInstruction) bool {
+				h2 := c.Common().StaticCallee()
+				return h2 != nil && h2 != helper && h2.Blocks != nil && pkgPathOf(h2) == pkgPathOf(helper)
+			}) {
+				a := hc.Common().Args
+				if len(a) == 0 {
+					continue
+				}
+				mc, isMC := a[len(a)-1].(*ssa.MakeClosure)
+				if !isMC {
+					continue
+				}
+				lit := mc.Fn.(*ssa.Function)
+				// the literal captures cb and every return is the (possibly negated) result of calling it
+				capt := -1
+				for bi, b := range mc.Bindings {
+					if resolveLocal(b) == ssa.Value(cb) {
+						capt = bi
+					}
+					if al, isA := b.(*ssa.Alloc); isA {
+						for _, st := range storesTo(al) {
+							if st.Val == ssa.Value(cb) {
+								capt = bi
+							}
+						}
+					}
+				}
+				if capt < 0 || capt >= len(lit.FreeVars) {
+					continue
+				}
+				negAll, posAll, nret := true, true, 0
+				for _, ret := range returnsOf(lit) {
+					nret++
+					v := ret.Results[0]
+					neg := false
+					if u, isU := v.(*ssa.UnOp); isU && u.Op == token.NOT {
+						v, neg = u.X, true
+					}
+					c, _ := callOf(v)
+					isCb := false
+					if c != nil {
+						fv := c.Call.Value
+						if u, isU := fv.(*ssa.UnOp); isU && u.Op == token.MUL {
+							fv = u.X
+						}
+						isCb = fv == ssa.Value(lit.FreeVars[capt])
+					}
+					if !isCb {
+						negAll, posAll = false, false
+					} else if neg {
+						posAll = false
+					} else {
+						negAll = false
+					}
+				}
+				if nret == 0 || (!negAll && !posAll) {
+					continue
+				}
+				if s2, ok2 := stopValue(hc.Common().StaticCallee()); ok2 {
+					if negAll {
+						return !s2, true
+					}
+					return s2, true
+				}
+			}
 			for _, c := range callsIn(helper, false, func(c ssa.CallInstruction) bool { return c.Common().Value == ssa.Value(cb) }) {
 				cc, ok := c.(*ssa.Call)
 				if !ok {
@@ -441,7 +542,7 @@ func checkC18(e *Engine, r *Report) {
 		// the iteration helpers export/import are built on hand over every entry
 		{
 			chk, probs := iterationHelpersComplete(e)
-			r.Check(len(probs) == 0 && len(chk) >= 2, "keeper iteration helpers › every entry reaches the callback", e.Pos(exp.Pos()), strings.Join(chk, ", "), "a store-iteration helper filters entries before its callback: "+strings.Join(probs, "; ")+" — what it skips is neither exported nor deleted")
+			r.Check(len(probs) == 0 && len(chk) >= 1, "keeper iteration helpers › every entry reaches the callback", e.Pos(exp.Pos()), strings.Join(chk, ", "), "a store-iteration helper filters entries before its callback: "+strings.Join(probs, "; ")+" — what it skips is neither exported nor deleted")
 		}
 		// import completeness: an iteration over a genesis collection handles its whole record on every path that completes
 		for _, mod := range []struct{ pkg, fn string }{{EV + "/x/evm", "InitGenesis"}, {EV + "/x/cpc", "InitGenesis"}, {EV + "/x/feemarket", "InitGenesis"}} {
